@@ -231,7 +231,7 @@ def c13(A):
                                 open_pings = open_pings[:-1]   # answers the latest PINGREQ only
                             else:
                                 open_pings.append(t)
-                    emax += min(2, sum(1 for t in open_pings if t + c.keepalive >= sn["t"] - 1e-6))
+                    emax += min(2, sum(1 for t in open_pings if t + c.keepalive >= sn["t"] - A.cfg.late - 1e-6))
             for r in connect_reqs.get(c.idx, []):
                 if r.i_ret < i_s and not r.fired_before(i_s):
                     emax += 1
